@@ -68,7 +68,19 @@ func evalCommand(line string) (string, string) {
 		return bstr(g) + " " + bstr(gs), q(string(x)) + ".Covers(" + q(string(y)) + ")"
 	case "cmd.segments":
 		x := command.Command(unhx(f[1]))
-		return hxList(x.Segments()), q(string(x)) + ".Segments()"
+		first := hxList(x.Segments())
+		// a caller may do what it likes with the slice it was given: the next answer is the same
+		got := x.Segments()
+		for i := range got {
+			got[i] = "overwritten"
+		}
+		if len(got) > 0 {
+			_ = append(got[:len(got)-1], "appended")
+		}
+		if again := hxList(command.Command(unhx(f[1])).Segments()); again != first {
+			return "history: first=" + first + " after-caller-wrote-to-the-result=" + again, q(string(x)) + ".Segments()"
+		}
+		return first, q(string(x)) + ".Segments()"
 	case "cmd.join":
 		x := command.Command(unhx(f[1]))
 		l := unhxList(f[2])
